@@ -46,6 +46,9 @@ def all_templates(tree: SourceTree) -> list:
     return [f for f in tree.files() if f.startswith(TEMPLATE_ROOT + "/") and f.endswith(".j2")]
 
 
+# Jinja's built-in filter aliases: one name per filter (canonical form)
+_FILTER_ALIAS = {"count": "length", "d": "default", "e": "escape"}
+
 BIN = {nodes.Add: "+", nodes.Sub: "-", nodes.Mul: "*", nodes.Div: "/", nodes.FloorDiv: "//",
        nodes.Mod: "%", nodes.Pow: "**"}
 
@@ -66,10 +69,11 @@ def jx(n):
         return ("item", jx(n.node), jx(n.arg))
     if t is nodes.Filter:
         inner = jx(n.node)
+        name = _FILTER_ALIAS.get(n.name, n.name)
         # iterating a dict iterates its keys: `x.element_count | first` is `x.element_count.keys() | first` (canonical form)
-        if n.name in ("first", "last", "list", "length", "join", "sort") and inner[0] == "attr" and inner[2] == "element_count":
+        if name in ("first", "last", "list", "length", "join", "sort") and inner[0] == "attr" and inner[2] == "element_count":
             inner = ("call", ("attr", inner, "keys"), (), ())
-        return ("filter", n.name, inner, tuple(jx(a) for a in n.args),
+        return ("filter", name, inner, tuple(jx(a) for a in n.args),
                 tuple((k.key, jx(k.value)) for k in n.kwargs))
     if t is nodes.Test:
         return ("test", n.name, jx(n.node), tuple(jx(a) for a in n.args))
@@ -78,7 +82,14 @@ def jx(n):
     if t is nodes.Compare:
         return ("cmp", jx(n.expr), tuple((o.op, jx(o.expr)) for o in n.ops))
     if t in BIN:
-        return ("bin", BIN[t], jx(n.left), jx(n.right))
+        l, r = jx(n.left), jx(n.right)
+        # the one-based loop counters minus one are the zero-based ones: `loop.index - 1` is `loop.index0` (canonical form)
+        if t is nodes.Sub and r == ("const", 1) and l[0] == "attr" and l[1] == ("name", "loop") and l[2] in ("index", "revindex"):
+            return ("attr", l[1], l[2] + "0")
+        # ... and counting from the other end: `loop.length - loop.revindex` is `loop.index0`, `loop.length - loop.index` is `loop.revindex0`
+        if t is nodes.Sub and l == ("attr", ("name", "loop"), "length") and r[0] == "attr" and r[1] == ("name", "loop") and r[2] in ("index", "revindex"):
+            return ("attr", r[1], {"revindex": "index0", "index": "revindex0"}[r[2]])
+        return ("bin", BIN[t], l, r)
     if t is nodes.Neg:
         return ("neg", jx(n.node))
     if t is nodes.Pos:
@@ -800,6 +811,133 @@ def propagate_sets(items):
                 out.append(it)
         return out
     return rec(items, {})
+
+
+def _subst_items(items, env):
+    """the items with the names of `env` replaced in every expression, as far as the names keep their meaning (Jinja scoping: a
+    `{% set %}` / loop target of the same name re-binds it for what follows / for the loop body)"""
+    env = dict(env)
+    out = []
+
+    def drop(t):
+        for n_ in names_of(t):
+            env.pop(n_, None)
+    for it in items:
+        k = it[0]
+        if not env:
+            out.append(it)
+        elif k == "out":
+            out.append(("out", subst_names(it[1], env)) + tuple(it[2:]))
+        elif k == "set":
+            out.append(("set", it[1], subst_names(it[2], env)) + tuple(it[3:]))
+            drop(it[1])
+        elif k == "setblock":
+            out.append(("setblock", it[1], tuple(_subst_items(it[2], env))) + tuple(it[3:]))
+            drop(it[1])
+        elif k == "for":
+            inner = {n_: v for n_, v in env.items() if n_ not in names_of(it[1])}
+            out.append(("for", it[1], subst_names(it[2], env), tuple(_subst_items(it[3], inner)), tuple(_subst_items(it[4], env)), it[5], it[6],
+                        subst_names(it[7], inner) if it[7] is not None else None))
+        elif k == "if":
+            out.append(("if", subst_names(it[1], env), tuple(_subst_items(it[2], env)), tuple(_subst_items(it[3], env))) + tuple(it[4:]))
+            for sub, _ in walk_items(tuple(it[2]) + tuple(it[3])):
+                if sub[0] in ("set", "setblock"):
+                    drop(sub[1])
+        else:
+            out.append(it)
+    return out
+
+
+def _map_exprs(items, f):
+    """the items with f applied to every expression (no scoping: the caller has checked that no name is re-bound)"""
+    out = []
+    for it in items:
+        k = it[0]
+        if k == "out":
+            out.append(("out", f(it[1])) + tuple(it[2:]))
+        elif k == "set":
+            out.append(("set", it[1], f(it[2])) + tuple(it[3:]))
+        elif k == "setblock":
+            out.append(("setblock", it[1], tuple(_map_exprs(it[2], f))) + tuple(it[3:]))
+        elif k == "for":
+            out.append(("for", it[1], f(it[2]), tuple(_map_exprs(it[3], f)), tuple(_map_exprs(it[4], f)), it[5], it[6], f(it[7]) if it[7] is not None else None))
+        elif k == "if":
+            out.append(("if", f(it[1]), tuple(_map_exprs(it[2], f)), tuple(_map_exprs(it[3], f))) + tuple(it[4:]))
+        else:
+            out.append(it)
+    return out
+
+
+def _position_loop(tg, seq, body):
+    """`{% for i in range(S | length) %} .. S[i] .. {{ i }}` is `{% for x in S %} .. x .. {{ loop.index0 }}`: -> (element variable,
+    S, rewritten body), or None when the loop is not of that form, `i` is re-bound, or `i` is used inside a nested loop (where
+    `loop` is another loop)"""
+    if not (tg[0] == "name" and seq[0] == "call" and seq[1] == ("name", "range") and not seq[3] and len(seq[2]) in (1, 2)):
+        return None
+    if len(seq[2]) == 2 and seq[2][0] != ("const", 0):
+        return None
+    n = canon(seq[2][-1])
+    if not (n[0] == "filter" and n[1] == "length" and not n[3] and not n[4]):
+        return None
+    S, i = n[2], tg[1]
+    used = set()
+    for sub, st in walk_items(body):
+        k = sub[0]
+        if k in ("set", "setblock", "for") and i in names_of(sub[1]):
+            return None
+        nested = any(x[0] == "for" for x in st)
+        exprs = [sub[1]] if k in ("out", "if") else [sub[2]] if k == "set" else [sub[2]] if k == "for" else []
+        inner = [sub[7]] if k == "for" and sub[7] is not None else []         # evaluated per item of the nested loop
+        for x in exprs + inner:
+            used |= names_of(x)
+        if any(i in names_of(x) for x in (exprs if nested else []) + inner):
+            return None
+    elem = ("name", i + "_item")
+    if elem[1] in used:
+        return None
+
+    def f(e):
+        if not isinstance(e, tuple):
+            return e
+        if e == ("item", S, tg):
+            return elem
+        if e == tg:
+            return ("attr", ("name", "loop"), "index0")
+        return tuple(f(x) if isinstance(x, tuple) else x for x in e)
+    return elem, S, _map_exprs(body, f)
+
+
+def unmap_loops(items):
+    """`{% for a in S | map(attribute="alias") %} .. {{ a }}` is `{% for a in S %} .. {{ a.alias }}`: a loop over a chain of
+    one-to-one `map` filters (see elementwise) visits the base sequence in order, its variable standing for the mapped element;
+    positions (`loop.index0`, `loop.last`) and the number of iterations are those of the base.  The same items with such loops
+    rewritten over their base sequence (recursively; the loop variable keeps its name).  Loops whose target is not a plain name or
+    whose map chain is not understood are left as they are.  A loop over the positions of a sequence (`for i in range(S | length)`,
+    see _position_loop) is rewritten as the loop over the sequence in the same way."""
+    out = []
+    for it in items:
+        k = it[0]
+        if k == "for":
+            body, els = unmap_loops(it[3]), unmap_loops(it[4])
+            tg, seq, test = it[1], it[2], it[7]
+            pl = _position_loop(tg, seq, body) if test is None else None
+            if pl is not None:
+                tg, seq, body = pl
+            if tg[0] == "name" and seq[0] == "filter" and seq[1] == "map":
+                base, elt = elementwise(seq, tg)
+                if base != seq and not (base[0] == "filter" and base[1] == "map"):
+                    env = {tg[1]: elt}
+                    body = _subst_items(body, env)
+                    test = subst_names(test, env) if test is not None else None
+                    seq = base
+            out.append(("for", tg, seq, tuple(body), tuple(els), it[5], it[6], test))
+        elif k == "if":
+            out.append(("if", it[1], tuple(unmap_loops(it[2])), tuple(unmap_loops(it[3]))) + tuple(it[4:]))
+        elif k == "setblock":
+            out.append(("setblock", it[1], tuple(unmap_loops(it[2]))) + tuple(it[3:]))
+        else:
+            out.append(it)
+    return out
 
 
 def _walk_all(tree, rel):
